@@ -55,13 +55,63 @@ def canon_post(ser):
     return out
 
 
+def mentioned_ids(x, acc=None):
+    acc = set() if acc is None else acc
+    if isinstance(x, dict):
+        if 'v' in x and isinstance(x['v'], int):
+            acc.add(x['v'])
+        if 'co' in x and isinstance(x['co'], list):
+            for pair in x['co']:
+                if isinstance(pair, (list, tuple)) and pair and isinstance(pair[0], int):
+                    acc.add(pair[0])
+        for v in x.values():
+            mentioned_ids(v, acc)
+    elif isinstance(x, (list, tuple)):
+        for v in x:
+            mentioned_ids(v, acc)
+    return acc
+
+
+def mentioned_scalars(cons):
+    """(id, generation) of every ScalarVariable that occurs in the constraints' expressions (ids restart after
+    clear_variable_indices, so the id alone does not identify a component)"""
+    from sageopt.coniclifts.base import ScalarVariable, ScalarExpression
+    acc = set()
+
+    def se_scan(se):
+        if not isinstance(se, ScalarExpression):
+            return
+        for a in se.atoms_to_coeffs:
+            if isinstance(a, ScalarVariable):
+                acc.add((int(a.id), int(a._generation)))
+            else:
+                for arg in a.args:
+                    for sv, _ in arg[:-1]:
+                        acc.add((int(sv.id), int(sv._generation)))
+    for c in cons:
+        for attr in ('expr', 'y', 'w', 'z', 'arg', 'lhs', 'rhs', 'c', 'v'):
+            e = getattr(c, attr, None)
+            if e is None:
+                continue
+            try:
+                for se in np.asarray(e, dtype=object).flat:
+                    se_scan(se)
+            except Exception:  # noqa: BLE001
+                pass
+    return acc
+
+
 def compile_observe(cons, user_vars):
     """one real compile; returns (pre-state, dummy, candidates, impl-output, post-state)"""
     import sageopt.coniclifts as cl
     from sageopt.coniclifts.base import ScalarVariable
     pre = ser_state(cons)
     epis = clm.epi_vars(pre)
-    cand = [clm.var_info(v) for v in user_vars] + epis
+    # candidates: the Variables the constraints mention (the implementation collects its Variables from the constraints; a Variable
+    # that occurs nowhere takes no part in the generation check)
+    mentioned = mentioned_scalars(cons)
+    cand = [clm.var_info(v) for v in user_vars
+            if mentioned & {(int(i), int(v.generation)) for i in np.asarray(v.scalar_variable_ids).ravel()}] + epis
     gens = [v['gen'] for v in cand if v['gen'] is not None]
     for v in cand:
         if v['gen'] is None:
@@ -236,7 +286,8 @@ def run_history(ctx, hseed, maxops):
             pre, dummy, cand, out, post = compile_observe(mixed, w.vars + [z])
             steps.append({'pre': pre, 'dummy': dummy, 'vars': cand, 'out': out, 'post': post, 'k': k, 'mixed': True})
             trace.append(['clear+mixed-compile'])
-            if 'raises' not in out:
+            if 'raises' not in out and c07.mentions_variable(ser_state(list(w.cons))):
+                # (a world whose constraints are constants only does not mix anything)
                 problems.append(('a model mixing Variables of two index generations was compiled without error',
                                  {'subseed': subseed, 'hseed': hseed, 'maxops': maxops, 'trace': trace[:]}))
             break
